@@ -143,6 +143,11 @@ func (w *slotWorld) specCompare(r *Report, rule, side string, m map[string]*norm
 			r.Check(found, rule, key, "-", "as in "+spec.Source, fmt.Sprintf("the %sr has it at %v", side, have))
 		}
 		for _, g := range t.Segs {
+			if g.Field == "" && normNested(g.Nested) == "" && side == "encode" {
+				// octets that belong to no field and no nested record (fill, alignment)
+				r.bad(rule, fmt.Sprintf("%s %s anonymous octets [%s : %s]", side, rec, g.Lo, g.Hi), g.Pos, "the encoder emits octets here that are no field and no nested record; the reference layout ("+spec.Source+") has no fill octets in this record")
+				continue
+			}
 			if strings.HasPrefix(g.Field, "call:") || g.Field == "" || isListSeg(g) {
 				continue
 			}
@@ -188,6 +193,7 @@ func RunC05(c *Ctx, r *Report) {
 	w.unresolvedRule(r, prefix+"resolved", true, true)
 	w.lengthSlotRule(r, prefix+"length-slots")
 	w.nestedDispatchRule(r, prefix+"nested-dispatch")
+	w.strideRule(r, prefix+"record-stride")
 	// constants, markers, reserved
 	ruleK := prefix + "constants-and-reserved"
 	r.Rule(ruleK, "the only wire bits the encoder sets to 1 by constant are the type octets of EAP methods and the 'more substructures follow' markers (2 for proposals, 3 for transforms, under 'not last'); reserved fields and the critical bit are never written", 20)
